@@ -341,7 +341,7 @@ theorem combine_sound (e : Env) {cur nx cur' : RNode} {r : Option RNode}
     simp only [combineFull] at h
     split at h
     · rename_i hc
-      obtain ⟨rfl, rfl⟩ := hc
+      obtain ⟨_, rfl⟩ := hc
       split at h
       · simp only [Option.some.injEq, Prod.mk.injEq] at h
         obtain ⟨rfl, rfl⟩ := h
